@@ -993,7 +993,10 @@ class AfterInvalid:
         return getattr(self._chk, name)
 
     def fail(self, sig, case, **kw):
-        self._chk.fail(("after_invalid_call", self._what) + tuple(sig), case, **kw)
+        # coarse: which relation fails after which invalid call (not per wrapper / antenna set-up)
+        keep = tuple(x for x in sig if x not in ("siso", "mimo_direct", "mimo_switched")
+                     and x.split("+")[0] not in ("tdl", "su", "mu"))
+        self._chk.fail(("after_invalid_call", self._what) + keep, case, **kw)
 
 
 def run_scenario(case, chk0):
@@ -1668,8 +1671,10 @@ def fam_events(tier):
             events = events + [sw0]
         nS = len(events)
         alpha = events + errs
-        for txs in ([ta, fa, fb, ta], [fa, fb, ta, fb]):
+        for txs in ([ta, fa, fb, ta], [fa, fb, ta, fb], [ta, ta, fa, ta]):
             for depth in (1, 2, 3):
+                if txs[1] is ta and depth > 1 and tier != "thorough":
+                    continue
                 if depth == 3 and tier != "thorough":
                     continue
                 for evs in itertools.product(range(len(alpha)), repeat=depth):
@@ -1738,15 +1743,16 @@ def fam_long(tier):
     txs = [ta, fa, fb, tb, fc, ta, fb, tb]
     bad = lambda w: {"op": "bad_call", "what": w}
     ev_all = [{"op": "switch", "value": True}, bad("freq_index_out_of_range"), {"op": "set_pathloss", "value": "v2"},
-              bad("time_many_streams"), {"op": "switch", "value": False}, bad("users_few"),
-              {"op": "set_pathloss", "value": None}, bad("freq_not_multiple")]
+              bad("time_few_streams"), {"op": "switch", "value": False}, bad("users_few"),
+              bad("time_2d_for_siso"), {"op": "set_pathloss", "value": None}, bad("freq_not_multiple"),
+              bad("time_many_streams"), bad("pathloss_shape_small")]
     for (w, ant, N, pl) in wrapper_configs():
         fam = "mu" if w.startswith("mu") else ("su" if w.startswith("su") else "tdl")
         for rot in range(0, 8, 2 if tier == "quick" else 1):
             hist = []
             for k in range(8):
                 hist.append(dict(txs[(k + rot) % 8]))
-                e = ev_all[(k + rot) % 8]
+                e = ev_all[(k + 3 * rot) % len(ev_all)]
                 if e["op"] == "set_pathloss" and fam == "tdl":
                     continue
                 hist.append(dict(e))
